@@ -1,12 +1,15 @@
 // C35 — entity handles stay unique and entity creation never panics.
 // Pattern A: a real DcpsDomainParticipant; the per-kind creation counter is symbolic (it is the
 // only state the handle computation depends on besides the parent's handle); one real create_*.
-// History abstraction: an entity created earlier with counter value c0 is still alive; the
-// counter now holds c. In a history without wrap-around c0 < c; the release profile wraps, so
-// after 2^8 (2^16) creations any relation is reachable. The `__rest` harnesses assume the counter
-// is not at its maximum; the `__known` harnesses pin it at the maximum (recorded finding).
+// History abstraction (inductive invariant I): every live entity of a kind was created with a
+// counter value c0 strictly below the current counter c. One real create_* from ANY state
+// satisfying I either returns Ok with a handle distinct from the live one and re-establishes I
+// (counter strictly above every handle's counter bytes: no wrap-around), or returns
+// Err(OutOfResources) and creates nothing; it never panics (dev-profile overflow checks are on).
+// I holds initially (counter 0, no entity), so it covers create/delete histories of any length.
 use super::support_participant as sp;
 use crate::dcps::dcps_domain_participant::participant_entity::DcpsDomainParticipant;
+use crate::infrastructure::error::{DdsError, DdsResult};
 use crate::infrastructure::instance::InstanceHandle;
 use crate::infrastructure::qos::QosKind;
 use crate::infrastructure::time::Time;
@@ -17,101 +20,19 @@ fn rt() -> sp::VRuntime {
     sp::VRuntime { now: Time::new(1, 0) }
 }
 
-fn new_publisher(p: &mut DcpsDomainParticipant) -> InstanceHandle {
+fn try_publisher(p: &mut DcpsDomainParticipant) -> DdsResult<InstanceHandle> {
     p.create_user_defined_publisher(QosKind::Default, None, sp::mask_from_bits(0), &rt())
-        .expect("C35: publisher creation must succeed")
+}
+fn try_subscriber(p: &mut DcpsDomainParticipant) -> DdsResult<InstanceHandle> {
+    p.create_user_defined_subscriber(QosKind::Default, None, sp::mask_from_bits(0), &rt())
+}
+fn new_publisher(p: &mut DcpsDomainParticipant) -> InstanceHandle {
+    try_publisher(p).expect("C35: publisher creation must succeed")
 }
 fn new_subscriber(p: &mut DcpsDomainParticipant) -> InstanceHandle {
-    p.create_user_defined_subscriber(QosKind::Default, None, sp::mask_from_bits(0), &rt())
-        .expect("C35: subscriber creation must succeed")
+    try_subscriber(p).expect("C35: subscriber creation must succeed")
 }
-
-// @check props=C35 tier=quick
-// @desc create_user_defined_publisher from any counter value below the maximum, with an earlier publisher (counter c0 < c) still alive: succeeds, never panics, new handle differs from the live one and from the participant's
-// @bounds one live publisher; publisher_counter symbolic in [0, 255); c0 symbolic < c
-// @assume publisher_counter < 255 (the value 255 is the recorded finding KF-C35-1)
-// @enc DcpsDomainParticipant::create_user_defined_publisher
-#[kani::proof]
-#[kani::unwind(20)]
-#[kani::stub(critical_section::acquire, super::support_cs::cs_acquire)]
-#[kani::stub(critical_section::release, super::support_cs::cs_release)]
-fn c35_publisher_handle__rest() {
-    let cap = sp::Capture::new();
-    let mut p = sp::participant(&cap, 0);
-    let c0: u8 = kani::any();
-    let c: u8 = kani::any();
-    kani::assume(c0 < c && c < u8::MAX);
-    p.publisher_counter = c0;
-    let h0 = new_publisher(&mut p);
-    p.publisher_counter = c;
-    let h1 = new_publisher(&mut p);
-    assert!(h0 != h1, "C35: publisher handles distinct");
-    assert!(h1 != *p.get_instance_handle(), "C35: publisher handle differs from participant handle");
-    assert!(p.publisher_counter == c + 1);
-    kani::cover!(c == 254, "last safe counter value reachable");
-    core::mem::forget(p);
-}
-
-// @check props=C35 tier=quick known=KF-C35-1
-// @desc the 256th publisher creation (publisher_counter == 255): `self.publisher_counter += 1` overflows (panic in the dev profile, wrap to an already used handle byte in release)
-// @bounds publisher_counter == 255
-// @enc DcpsDomainParticipant::create_user_defined_publisher
-#[kani::proof]
-#[kani::unwind(20)]
-#[kani::stub(critical_section::acquire, super::support_cs::cs_acquire)]
-#[kani::stub(critical_section::release, super::support_cs::cs_release)]
-fn c35_publisher_handle__known() {
-    let cap = sp::Capture::new();
-    let mut p = sp::participant(&cap, 0);
-    p.publisher_counter = u8::MAX;
-    let _h = new_publisher(&mut p);
-    core::mem::forget(p);
-}
-
-// @check props=C35 tier=quick
-// @desc create_user_defined_subscriber, as c35_publisher_handle__rest; additionally the subscriber handle differs from a live publisher's handle with the same counter value
-// @bounds one live subscriber, one live publisher; subscriber_counter symbolic in [0, 255)
-// @assume subscriber_counter < 255 (255 is the recorded finding KF-C35-2)
-// @enc DcpsDomainParticipant::create_user_defined_subscriber
-#[kani::proof]
-#[kani::unwind(20)]
-#[kani::stub(critical_section::acquire, super::support_cs::cs_acquire)]
-#[kani::stub(critical_section::release, super::support_cs::cs_release)]
-fn c35_subscriber_handle__rest() {
-    let cap = sp::Capture::new();
-    let mut p = sp::participant(&cap, 0);
-    let c0: u8 = kani::any();
-    let c: u8 = kani::any();
-    kani::assume(c0 < c && c < u8::MAX);
-    p.subscriber_counter = c0;
-    let h0 = new_subscriber(&mut p);
-    p.publisher_counter = c;
-    let hp = new_publisher(&mut p);
-    p.subscriber_counter = c;
-    let h1 = new_subscriber(&mut p);
-    assert!(h0 != h1, "C35: subscriber handles distinct");
-    assert!(h1 != hp, "C35: subscriber and publisher handles distinct");
-    kani::cover!(c == 254, "last safe counter value reachable");
-    core::mem::forget(p);
-}
-
-// @check props=C35 tier=quick known=KF-C35-2
-// @desc the 256th subscriber creation (subscriber_counter == 255) overflows the u8 counter
-// @bounds subscriber_counter == 255
-// @enc DcpsDomainParticipant::create_user_defined_subscriber
-#[kani::proof]
-#[kani::unwind(20)]
-#[kani::stub(critical_section::acquire, super::support_cs::cs_acquire)]
-#[kani::stub(critical_section::release, super::support_cs::cs_release)]
-fn c35_subscriber_handle__known() {
-    let cap = sp::Capture::new();
-    let mut p = sp::participant(&cap, 0);
-    p.subscriber_counter = u8::MAX;
-    let _h = new_subscriber(&mut p);
-    core::mem::forget(p);
-}
-
-fn new_topic(p: &mut DcpsDomainParticipant, name: &str) -> InstanceHandle {
+fn try_topic(p: &mut DcpsDomainParticipant, name: &str) -> DdsResult<InstanceHandle> {
     p.create_topic(
         String::from(name),
         String::from("T"),
@@ -121,65 +42,161 @@ fn new_topic(p: &mut DcpsDomainParticipant, name: &str) -> InstanceHandle {
         <crate::infrastructure::time::Duration as Type>::TYPE,
         &rt(),
     )
-    .expect("C35: topic creation must succeed")
+}
+fn new_topic(p: &mut DcpsDomainParticipant, name: &str) -> InstanceHandle {
+    try_topic(p, name).expect("C35: topic creation must succeed")
+}
+fn try_writer(p: &mut DcpsDomainParticipant, hp: &InstanceHandle) -> DdsResult<InstanceHandle> {
+    p.create_data_writer(hp, String::from("A"), QosKind::Default, None, sp::mask_from_bits(0), &rt())
+}
+fn try_reader(p: &mut DcpsDomainParticipant, hs: &InstanceHandle) -> DdsResult<InstanceHandle> {
+    p.create_data_reader(hs, String::from("A"), QosKind::Default, None, sp::mask_from_bits(0), &rt())
+}
+fn is_out_of_resources<T>(r: &DdsResult<T>) -> bool {
+    matches!(r, Err(DdsError::OutOfResources))
 }
 
 // @check props=C35 tier=quick
-// @desc create_topic and create_content_filtered_topic from any topic_counter below the maximum with an earlier topic alive: succeed, never panic, handles pairwise distinct
-// @bounds one live topic; topic_counter symbolic in [0, 65534)
-// @assume topic_counter < 65534 (65535 is the recorded finding KF-C35-3)
+// @desc create_user_defined_publisher from ANY counter value c (0..=255) with an earlier publisher (counter c0 < c) alive: never panics; Ok => handle differs from the live one and from the participant's, counter > c (invariant re-established, no wrap); Err => OutOfResources and no publisher was added
+// @bounds one live publisher; publisher_counter symbolic over the full u8 range; c0 symbolic < c
+// @assume invariant I: the live publisher's counter byte c0 is below the current counter c
+// @enc DcpsDomainParticipant::create_user_defined_publisher
+#[kani::proof]
+#[kani::unwind(20)]
+#[kani::stub(critical_section::acquire, super::support_cs::cs_acquire)]
+#[kani::stub(critical_section::release, super::support_cs::cs_release)]
+fn c35_publisher_handle() {
+    let cap = sp::Capture::new();
+    let mut p = sp::participant(&cap, 0);
+    let c0: u8 = kani::any();
+    let c: u8 = kani::any();
+    kani::assume(c0 < c);
+    p.publisher_counter = c0;
+    let h0 = new_publisher(&mut p);
+    p.publisher_counter = c;
+    let n_before = p.domain_participant.user_defined_publisher_list.len();
+    let r = try_publisher(&mut p);
+    match &r {
+        Ok(h1) => {
+            assert!(h0 != *h1, "C35: publisher handles distinct");
+            assert!(*h1 != *p.get_instance_handle(), "C35: publisher handle differs from participant handle");
+            assert!(p.publisher_counter > c, "C35: publisher counter strictly increases (no wrap-around onto live handles)");
+            assert!(h1[12] < p.publisher_counter, "C35: invariant re-established for the new publisher");
+        }
+        Err(_) => {
+            assert!(is_out_of_resources(&r), "C35: publisher creation fails only with OutOfResources");
+            assert!(p.domain_participant.user_defined_publisher_list.len() == n_before, "C35: failed creation adds no publisher");
+        }
+    }
+    kani::cover!(c == 254 && r.is_ok(), "last usable counter value");
+    kani::cover!(c == u8::MAX, "counter at its maximum reachable");
+    core::mem::forget(p);
+}
+
+// @check props=C35 tier=quick
+// @desc create_user_defined_subscriber, as c35_publisher_handle; additionally the subscriber handle differs from a live publisher's handle with the same counter value
+// @bounds one live subscriber, one live publisher; subscriber_counter symbolic over the full u8 range
+// @assume invariant I: the live subscriber's counter byte c0 is below the current counter c
+// @enc DcpsDomainParticipant::create_user_defined_subscriber
+#[kani::proof]
+#[kani::unwind(20)]
+#[kani::stub(critical_section::acquire, super::support_cs::cs_acquire)]
+#[kani::stub(critical_section::release, super::support_cs::cs_release)]
+fn c35_subscriber_handle() {
+    let cap = sp::Capture::new();
+    let mut p = sp::participant(&cap, 0);
+    let c0: u8 = kani::any();
+    let c: u8 = kani::any();
+    kani::assume(c0 < c);
+    p.subscriber_counter = c0;
+    let h0 = new_subscriber(&mut p);
+    p.publisher_counter = if c < u8::MAX { c } else { c0 };
+    let hp = new_publisher(&mut p);
+    p.subscriber_counter = c;
+    let n_before = p.domain_participant.user_defined_subscriber_list.len();
+    let r = try_subscriber(&mut p);
+    match &r {
+        Ok(h1) => {
+            assert!(h0 != *h1, "C35: subscriber handles distinct");
+            assert!(*h1 != hp, "C35: subscriber and publisher handles distinct");
+            assert!(p.subscriber_counter > c, "C35: subscriber counter strictly increases (no wrap-around onto live handles)");
+            assert!(h1[12] < p.subscriber_counter, "C35: invariant re-established for the new subscriber");
+        }
+        Err(_) => {
+            assert!(is_out_of_resources(&r), "C35: subscriber creation fails only with OutOfResources");
+            assert!(p.domain_participant.user_defined_subscriber_list.len() == n_before, "C35: failed creation adds no subscriber");
+        }
+    }
+    kani::cover!(c == 254 && r.is_ok(), "last usable counter value");
+    kani::cover!(c == u8::MAX, "counter at its maximum reachable");
+    core::mem::forget(p);
+}
+
+fn topic_ctr(h: &InstanceHandle) -> u16 {
+    u16::from_ne_bytes([h[13], h[14]])
+}
+
+// @check props=C35 tier=quick
+// @desc create_topic and create_content_filtered_topic from ANY topic_counter with an earlier topic alive: never panic; Ok => handles pairwise distinct and the counter stays strictly above every handle's counter bytes; Err => OutOfResources, no topic added
+// @bounds one live topic; topic_counter symbolic over the full u16 range
+// @assume invariant I: the live topic's counter c0 is below the current counter c
 // @enc DcpsDomainParticipant::create_topic
 // @enc DcpsDomainParticipant::create_content_filtered_topic
 #[kani::proof]
 #[kani::unwind(20)]
 #[kani::stub(critical_section::acquire, super::support_cs::cs_acquire)]
 #[kani::stub(critical_section::release, super::support_cs::cs_release)]
-fn c35_topic_handle__rest() {
+fn c35_topic_handle() {
     let cap = sp::Capture::new();
     let mut p = sp::participant(&cap, 0);
     let c0: u16 = kani::any();
     let c: u16 = kani::any();
-    kani::assume(c0 < c && c < u16::MAX - 1);
+    kani::assume(c0 < c);
     p.domain_participant.topic_counter = c0;
     let h0 = new_topic(&mut p, "A");
     p.domain_participant.topic_counter = c;
-    let h1 = new_topic(&mut p, "B");
+    let n_before = p.domain_participant.locally_created_topic_list.len();
+    let r1 = try_topic(&mut p, "B");
     let ph = *p.get_instance_handle();
-    let h2 = p
-        .create_content_filtered_topic(&ph, String::from("F"), String::from("A"), String::new(), alloc::vec::Vec::new())
-        .expect("C35: content filtered topic creation must succeed");
-    assert!(h0 != h1 && h1 != h2 && h0 != h2, "C35: topic handles distinct");
-    kani::cover!(c > 255, "second counter byte used");
-    core::mem::forget(p);
-}
-
-// @check props=C35 tier=quick known=KF-C35-3
-// @desc topic creation with topic_counter == 65535 overflows the u16 counter
-// @bounds topic_counter == 65535
-// @enc DcpsDomainParticipant::create_topic
-#[kani::proof]
-#[kani::unwind(20)]
-#[kani::stub(critical_section::acquire, super::support_cs::cs_acquire)]
-#[kani::stub(critical_section::release, super::support_cs::cs_release)]
-fn c35_topic_handle__known() {
-    let cap = sp::Capture::new();
-    let mut p = sp::participant(&cap, 0);
-    p.domain_participant.topic_counter = u16::MAX;
-    let _h = new_topic(&mut p, "A");
+    match &r1 {
+        Ok(h1) => {
+            assert!(h0 != *h1, "C35: topic handles distinct");
+            assert!(topic_ctr(h1) < p.domain_participant.topic_counter, "C35: topic counter strictly above the new topic's counter bytes (no wrap-around)");
+            let c_mid = p.domain_participant.topic_counter;
+            let r2 = p.create_content_filtered_topic(&ph, String::from("F"), String::from("A"), String::new(), alloc::vec::Vec::new());
+            match &r2 {
+                Ok(h2) => {
+                    assert!(*h1 != *h2 && h0 != *h2, "C35: content filtered topic handle distinct");
+                    assert!(topic_ctr(h2) < p.domain_participant.topic_counter, "C35: topic counter strictly above the filtered topic's counter bytes");
+                }
+                Err(_) => {
+                    assert!(is_out_of_resources(&r2), "C35: content filtered topic creation fails only with OutOfResources");
+                    assert!(p.domain_participant.topic_counter == c_mid, "C35: failed creation leaves the counter");
+                }
+            }
+            kani::cover!(r2.is_err(), "content filtered topic creation at the counter maximum");
+        }
+        Err(_) => {
+            assert!(is_out_of_resources(&r1), "C35: topic creation fails only with OutOfResources");
+            assert!(p.domain_participant.locally_created_topic_list.len() == n_before, "C35: failed creation adds no topic");
+        }
+    }
+    kani::cover!(c > 255 && r1.is_ok(), "second counter byte used");
+    kani::cover!(c == u16::MAX, "counter at its maximum reachable");
     core::mem::forget(p);
 }
 
 // @check props=C35 tier=quick
-// @desc create_data_writer / create_data_reader under a live publisher/subscriber from any counter below the maximum with an earlier writer/reader alive: succeed, never panic, handles distinct from each other and from their parents
-// @bounds one live writer and reader; writer_counter/reader_counter symbolic in [0, 65535)
-// @assume writer_counter, reader_counter < 65535 (65535 is the recorded finding KF-C35-4)
+// @desc create_data_writer / create_data_reader under a live publisher/subscriber from ANY counter value with an earlier writer/reader alive: never panic; Ok => handles distinct from each other, from the earlier ones and from their parents, counter strictly increases; Err => OutOfResources
+// @bounds one live writer and reader; writer_counter/reader_counter symbolic over the full u16 range
+// @assume invariant I: the live writer's/reader's counter c0 is below the current counter c
 // @enc DcpsDomainParticipant::create_data_writer
 // @enc DcpsDomainParticipant::create_data_reader
 #[kani::proof]
 #[kani::unwind(20)]
 #[kani::stub(critical_section::acquire, super::support_cs::cs_acquire)]
 #[kani::stub(critical_section::release, super::support_cs::cs_release)]
-fn c35_endpoint_handle__rest() {
+fn c35_endpoint_handle() {
     let cap = sp::Capture::new();
     let mut p = sp::participant(&cap, 0);
     let _t = new_topic(&mut p, "A");
@@ -187,35 +204,27 @@ fn c35_endpoint_handle__rest() {
     let hs = new_subscriber(&mut p);
     let c0: u16 = kani::any();
     let c: u16 = kani::any();
-    kani::assume(c0 < c && c < u16::MAX);
+    kani::assume(c0 < c);
     p.writer_counter = c0;
     p.reader_counter = c0;
-    let w0 = p.create_data_writer(&hp, String::from("A"), QosKind::Default, None, sp::mask_from_bits(0), &rt()).expect("C35: writer creation");
-    let r0 = p.create_data_reader(&hs, String::from("A"), QosKind::Default, None, sp::mask_from_bits(0), &rt()).expect("C35: reader creation");
+    let w0 = try_writer(&mut p, &hp).expect("C35: writer creation");
+    let r0 = try_reader(&mut p, &hs).expect("C35: reader creation");
     p.writer_counter = c;
     p.reader_counter = c;
-    let w1 = p.create_data_writer(&hp, String::from("A"), QosKind::Default, None, sp::mask_from_bits(0), &rt()).expect("C35: writer creation");
-    let r1 = p.create_data_reader(&hs, String::from("A"), QosKind::Default, None, sp::mask_from_bits(0), &rt()).expect("C35: reader creation");
-    assert!(w0 != w1 && r0 != r1, "C35: endpoint handles distinct per kind");
-    assert!(w1 != r1 && w1 != hp && r1 != hs && w1 != hs && r1 != hp, "C35: endpoint handles distinct from other entities");
-    kani::cover!(c > 255, "second counter byte used");
-    core::mem::forget(p);
-}
-
-// @check props=C35 tier=quick known=KF-C35-4
-// @desc writer creation with writer_counter == 65535 overflows the u16 counter (same for reader_counter)
-// @bounds writer_counter == 65535
-// @enc DcpsDomainParticipant::create_data_writer
-#[kani::proof]
-#[kani::unwind(20)]
-#[kani::stub(critical_section::acquire, super::support_cs::cs_acquire)]
-#[kani::stub(critical_section::release, super::support_cs::cs_release)]
-fn c35_endpoint_handle__known() {
-    let cap = sp::Capture::new();
-    let mut p = sp::participant(&cap, 0);
-    let _t = new_topic(&mut p, "A");
-    let hp = new_publisher(&mut p);
-    p.writer_counter = u16::MAX;
-    let _w = p.create_data_writer(&hp, String::from("A"), QosKind::Default, None, sp::mask_from_bits(0), &rt());
+    let w1 = try_writer(&mut p, &hp);
+    let r1 = try_reader(&mut p, &hs);
+    match (&w1, &r1) {
+        (Ok(w1), Ok(r1)) => {
+            assert!(w0 != *w1 && r0 != *r1, "C35: endpoint handles distinct per kind");
+            assert!(*w1 != *r1 && *w1 != hp && *r1 != hs && *w1 != hs && *r1 != hp && *w1 != r0 && *r1 != w0, "C35: endpoint handles distinct from other entities");
+            assert!(p.writer_counter > c && p.reader_counter > c, "C35: endpoint counters strictly increase (no wrap-around onto live handles)");
+        }
+        _ => {
+            assert!(is_out_of_resources(&w1) && is_out_of_resources(&r1), "C35: endpoint creation fails only with OutOfResources");
+            assert!(c == u16::MAX, "C35: endpoint creation fails only at the counter maximum");
+        }
+    }
+    kani::cover!(c > 255 && w1.is_ok(), "second counter byte used");
+    kani::cover!(c == u16::MAX, "counter at its maximum reachable");
     core::mem::forget(p);
 }
